@@ -18,6 +18,7 @@ import (
 //   spzero       RegCustomDiceParser that reports Matched without consuming anything
 //   hooks        identity HookValueLoadPre / HookValueLoadPost / HookValueStore
 //   hooks2       identity HookValueLoadPre / HookValueLoadPost that calls doCompute only for computed values
+//   gnil         empty global table (GlobalValueLoadFunc -> nil) + identity GlobalValueLoadOverwriteFunc
 //   rewr         identity CustomDetailRewriteFunc / CustomDetailSpanRewriteFunc
 // Output: "<ok VALUE d=DETAIL m=MATCHED r=REST seed=SEED|err MSG> vars=… calls=<hex log of handler calls>"
 func customLine(t []string) string {
@@ -62,6 +63,11 @@ func customLine(t []string) string {
 					}
 					return cur
 				}
+			case sp == "gnil":
+				// a host with a global variable table that holds nothing, and an overwrite function that hands values back
+				vm.GlobalValueLoadFunc = func(name string) *ds.VMValue { return nil }
+				vm.GlobalValueStoreFunc = func(name string, v *ds.VMValue) {}
+				vm.GlobalValueLoadOverwriteFunc = func(name string, cur *ds.VMValue) *ds.VMValue { return cur }
 			case sp == "rewr":
 				vm.Config.CustomDetailRewriteFunc = func(ctx *ds.Context, cur string, span ds.BufferSpan, data []byte, off int) string { return cur }
 				vm.Config.CustomDetailSpanRewriteFunc = func(ctx *ds.Context, def string, span ds.BufferSpan, isRoot bool, data []byte, off int) string { return def }
